@@ -223,6 +223,17 @@ func c07Queries(thorough bool) []c07Q {
 			c07Q{&qQuery{items: []qItem{{kind: "col", col: qRef{"t", "g1"}, alias: "gg"}, {kind: "col", col: qRef{"s", "k"}}, {kind: "count*"}}, from: js, groupBy: []qRef{{"", "gg"}, {"s", "k"}}, limit: -1, offset: -1}, "join+group-by"},
 			c07Q{&qQuery{items: []qItem{{kind: "count*"}, {kind: "avg", col: qRef{"t", "w"}}}, from: js, limit: -1, offset: -1}, "join+implicit-group"})
 	}
+	// a joined table that shares its column names with t: every item and every grouping column is qualified
+	for _, kind := range []string{"JOIN", "LEFT JOIN", "RIGHT JOIN"} {
+		on2 := []qJoin{{table: "t"}, {kind: kind, table: "s2", on: &qCond{atoms: []qAtom{{qc("t", "g2"), qc("s2", "g2"), "="}}}}}
+		on1 := []qJoin{{table: "t"}, {kind: kind, table: "s2", on: &qCond{atoms: []qAtom{{qc("t", "g1"), qc("s2", "g1"), "="}}}}}
+		out = append(out,
+			c07Q{&qQuery{items: []qItem{{kind: "col", col: qRef{"t", "g1"}}, {kind: "count", col: qRef{"s2", "g1"}}}, from: on2, groupBy: []qRef{{"t", "g1"}}, limit: -1, offset: -1}, "join+shared-column-names"},
+			c07Q{&qQuery{items: []qItem{{kind: "col", col: qRef{"s2", "g1"}}, {kind: "count", col: qRef{"t", "g1"}}, {kind: "count*"}}, from: on2, groupBy: []qRef{{"s2", "g1"}}, limit: -1, offset: -1}, "join+shared-column-names"},
+			c07Q{&qQuery{items: []qItem{{kind: "col", col: qRef{"s2", "g1"}}, {kind: "col", col: qRef{"t", "g1"}}, {kind: "count*"}}, from: on2, groupBy: []qRef{{"s2", "g1"}, {"t", "g1"}}, limit: -1, offset: -1}, "join+shared-column-names"},
+			c07Q{&qQuery{items: []qItem{{kind: "count", col: qRef{"s2", "g2"}}, {kind: "count", col: qRef{"t", "g2"}}, {kind: "count*"}}, from: on1, limit: -1, offset: -1}, "join+shared-column-names"},
+			c07Q{&qQuery{items: []qItem{{kind: "count", col: qRef{"t", "g2"}}, {kind: "col", col: qRef{"s2", "g2"}}, {kind: "col", col: qRef{"t", "g2"}, alias: "x"}}, from: on1, groupBy: []qRef{{"s2", "g2"}, {"", "x"}}, limit: -1, offset: -1}, "join+shared-column-names"})
+	}
 	return out
 }
 
@@ -247,6 +258,9 @@ func runC07(env *lib.Env, rep *lib.Report) {
 	rep.Bounds["second table for the JOIN family"] = "s(k int, z int) = [(2,1),(23,NULL),(23,5)]"
 	sRows := [][]any{{int64(2), int64(1)}, {int64(23), nil}, {int64(23), int64(5)}}
 	sCols := []mCol{{"k", "int"}, {"z", "int"}}
+	rep.Bounds["third table (shares its column names with t)"] = "s2(g1 int, g2 int) = [(1,2),(12,NULL),(7,23),(NULL,3)]"
+	s2Rows := [][]any{{int64(1), int64(2)}, {int64(12), nil}, {int64(7), int64(23)}, {nil, int64(3)}}
+	s2Cols := []mCol{{"g1", "int"}, {"g2", "int"}}
 	_, d11 := r.known["D11-avg-running-rounded"]
 	n := 0
 	var multisets [][][]any
@@ -286,7 +300,7 @@ func runC07(env *lib.Env, rep *lib.Report) {
 		permutations(ms, func(rows [][]any) {
 			worlds++
 			body := func(c *lib.Ctx) {
-				qw := newQWorld(c, []*qTable{{name: "t", cols: c07Cols, rows: rows}, {name: "s", cols: sCols, rows: sRows}})
+				qw := newQWorld(c, []*qTable{{name: "t", cols: c07Cols, rows: rows}, {name: "s", cols: sCols, rows: sRows}, {name: "s2", cols: s2Cols, rows: s2Rows}})
 				defer qw.w.destroy()
 				for _, q := range qs {
 					known := ""
